@@ -16,7 +16,7 @@ def RSmall (c : Nat) (x : Small α) (l : List α) : Prop :=
 /-- every operation of the alphabet except `x.push_back(x[i])` on an object that holds exactly `DIM` elements
     (there the argument dangles after the internal resize: `Small.pushAt`) -/
 def smallOk (c : Nat) : Option (List α) → Op α → Prop
-  | some l, .pushAt _ _ => l.length ≠ c
+  | some l, .pushAt _ i => i < l.length → l.length ≠ c
   | _, _ => True
 
 instance decSmallOk (c : Nat) (st : Option (List α)) (op : Op α) : Decidable (smallOk c st op) := by
@@ -292,7 +292,7 @@ theorem small_sim (c : Nat) (zero : α) : Sim (smallImpl c zero) (stdSpec zero) 
       · simp only [Small.push, hc, if_false, ht, Bool.false_eq_true, RSmall]
         exact (vec_sim zero).push s a _ _ L M trivial hx
   pushAt := fun s i x y L M hok h hi => by
-    have hne : y.length ≠ c := hok
+    have hne : y.length ≠ c := hok hi
     have hsz := h.size_eq
     have hc : ¬ x.size = c := by omega
     show RSmall c (Small.pushAt c zero x i L).1 ((stdSpec zero).pushAt y i M).1
